@@ -12,7 +12,14 @@ use std::path::{Path, PathBuf};
 use std::sync::Mutex;
 use std::time::Instant;
 
-pub const VERIF_ROOT: &str = "/verif";
+/// root of the verification tree: /verif, or PV_VERIF_ROOT (relocated copies used by tools/par_seeds.py)
+pub fn verif_root() -> String {
+    std::env::var("PV_VERIF_ROOT").unwrap_or_else(|_| "/verif".to_string())
+}
+/// root of the repository under check: /repo, or PV_REPO_ROOT
+pub fn repo_root() -> String {
+    std::env::var("PV_REPO_ROOT").unwrap_or_else(|_| "/repo".to_string())
+}
 
 #[derive(Clone, Copy, Debug, PartialEq, Eq)]
 pub enum Tier {
@@ -287,7 +294,7 @@ impl Report {
             "violations": unknown,
             "known_findings_reproduced": known_hit,
         });
-        let dir = Path::new(VERIF_ROOT).join("evidence");
+        let dir = Path::new(&verif_root()).join("evidence");
         let _ = std::fs::create_dir_all(&dir);
         let path = dir.join(format!("{}.json", self.id));
         if let Err(e) = std::fs::write(&path, serde_json::to_string_pretty(&ev).unwrap()) {
@@ -327,7 +334,7 @@ fn sanitize(s: &str) -> String {
 }
 
 fn write_replay(id: &str, sig: &str, v: &Violation) -> PathBuf {
-    let dir = Path::new(VERIF_ROOT).join("replays").join(id);
+    let dir = Path::new(&verif_root()).join("replays").join(id);
     let _ = std::fs::create_dir_all(&dir);
     let path = dir.join(format!("{}.json", sanitize(sig)));
     let doc = json!({"property": id, "signature": sig, "what": v.what, "case": v.case});
@@ -363,7 +370,7 @@ pub struct Known {
 /// `/verif/known_findings.jsonl`: one JSON object per line,
 /// {"property","signature","status":"open"|"fixed","what",…}. Only `open` entries suppress.
 pub fn load_known_findings(id: &str) -> Vec<Known> {
-    let path = Path::new(VERIF_ROOT).join("known_findings.jsonl");
+    let path = Path::new(&verif_root()).join("known_findings.jsonl");
     let mut out = vec![];
     if let Ok(s) = std::fs::read_to_string(&path) {
         for line in s.lines() {
@@ -461,7 +468,7 @@ pub fn main_with(entries: &[Entry]) -> ! {
     let code = match &opts.mode {
         Mode::Run(tier) => {
             // stale replay files of earlier runs of this property are removed
-            let dir = Path::new(VERIF_ROOT).join("replays").join(entry.id);
+            let dir = Path::new(&verif_root()).join("replays").join(entry.id);
             if let Ok(rd) = std::fs::read_dir(&dir) {
                 for f in rd.flatten() {
                     let _ = std::fs::remove_file(f.path());
